@@ -86,11 +86,14 @@ func solveAll(obs []*Obligation, tier string, par int) {
 			hasSoft := o.HasSoft()
 			if hasSoft {
 				for _, drop := range []int{2, 1} {
+					lt := 3
 					if drop == 2 && (o.Kind == "ensures" || o.Kind == "lemma" || o.Kind == "inv-preserved") && o.goalQuantified() {
-						continue // a quantified goal needs the quantified hypotheses
+						// a quantified goal normally needs the quantified hypotheses; a short attempt still pays off on
+						// infeasible paths (split-paths runs through branches the invariants exclude)
+						lt = 1
 					}
 					o.softDrop = drop
-					lv := Solve(o.QueryOpt(false, true), 3, false, o.Backends)
+					lv := Solve(o.QueryOpt(false, true), lt, false, o.Backends)
 					o.softDrop = 0
 					if lv.Result == "unsat" {
 						lv.Backend += fmt.Sprintf("(light%d)", drop)
